@@ -41,6 +41,17 @@ CLAIMED = {
         "(size, spacing, center, origin, direction, align_corners, cube_extent), float32 tolerance policy",
         "DESIGN.md 3 C03",
     ),
+    "C05": (
+        "spec/Resample.tla, spec/MC_Resample.tla (on GridDefs)",
+        "TLA+ semantics of resampling with the identity transform in exact rationals (target sample -> continuous source index via the "
+        "grid maps, multilinear interpolation, nearest neighbour with open tie rule, zeros/border/constant padding); TLC checks the laws and "
+        "emits every target sample's expected value; three-way comparison spec / deepali / SimpleITK.Resample",
+        "every sample of every (source image, target grid, padding) case is compared on Image.sample, ImageBatch.sample (shared grid, per-image "
+        "grids, explicit coordinates), sample_image, grid_sample, SampleImage; SimpleITK must agree with the spec inside the source hull "
+        "or the check fails as machinery error",
+        "trusted: TLC, GridDefs (C01/C02), SimpleITK as independent reference; small integer images, rational rotations",
+        "DESIGN.md 3 C05",
+    ),
     "C06": (
         "spec/Transform.tla, spec/MC_Transform.tla (on GridDefs, Rotations0)",
         "TLA+ meaning function of every linear model and composite as an exact affine map of the cube, its world-space conjugate W and "
